@@ -486,7 +486,21 @@ def compute_loop_summary(ex, gpc, st, s, view, stats, branch_timeout_ms):
     sub2 = Explorer(base_pc=gpc + base, branch_timeout_ms=branch_timeout_ms, stats=stats)
     res2 = sub2.explore(_run_body(ex, st, s, view, j, setup2, on_cont))
     L.cont = [r for r in res2 if r.outcome in ("fall", "continue")]
-    L.exits = [r for r in res2 if r.outcome not in ("fall", "continue")]
+    L.exits = []
+    for r in res2:
+        if r.outcome in ("fall", "continue"):
+            continue
+        # drop exits that are infeasible once quantified facts (field invariants, ...) are taken into account;
+        # unknown keeps the exit (sound: more paths)
+        sv = z3.Solver()
+        sv.set("timeout", 3000)
+        sv.add(*gpc)
+        sv.add(*base)
+        sv.add(*r.pc)
+        if sv.check() == z3.unsat:
+            stats["infeasible"] = stats.get("infeasible", 0) + 1
+            continue
+        L.exits.append(r)
     L.res2 = res2
     cj = z3.Or(*[z3.And(*r.pc) if r.pc else z3.BoolVal(True) for r in L.cont]) if L.cont else z3.BoolVal(False)
     L.cj = simp(cj)
@@ -529,6 +543,10 @@ def sym_for(ex, ctx, st, s, view):
         return z3.ForAll([q], z3.Implies(z3.And(q >= 0, q < k), body))
 
     exits = L.exits
+    import os as _os
+    if _os.environ.get("PYVC_NO_MERGE") is None and exits:
+        if _merged_exits(ex, ctx, st, s, L, cj, all_before):
+            return
     d = ctx.choose(1 + len(exits))
     if d == 0:
         ctx.assume(n >= 0)
@@ -538,7 +556,11 @@ def sym_for(ex, ctx, st, s, view):
         ctx.check_feasible()
         ex.exec_block(ctx, st, s.orelse)
         return
-    p = exits[d - 1]
+    _take_exit(ctx, st, L, exits[d - 1], all_before)
+
+
+def _take_exit(ctx, st, L, p, all_before):
+    j, n, cj = L.j, L.n, L.cj
     k = ctx.fresh("k", Int, tuple(st.idx))
     pairs = [(j, k)]
     ctx.constrain(z3.And(k >= 0, k < n))
@@ -550,6 +572,8 @@ def sym_for(ex, ctx, st, s, view):
         else:
             ctx.constrain(z3.substitute(c, *pairs))
     ctx.check_feasible()
+    if not ctx.feasible_full_memo(3000):
+        raise Infeasible()
     # adopt the exit path's final state at index k
     ps = p.state.copy()
     subst_state(ps, pairs)
@@ -565,6 +589,197 @@ def sym_for(ex, ctx, st, s, view):
     if p.outcome == "raise":
         raise RaiseEx(p.value.exc, p.value.msg, p.value.where)
     raise CheckerError(p.outcome)
+
+
+class _AltCtx:
+    """Collects the assumptions / constraints of one alternative without committing them to the path."""
+
+    def __init__(self, ctx):
+        self._c = ctx
+        self.items = []  # (cond, kind)
+        self.names = []
+
+    def assume(self, cond, name=None, glob=False, heavy=False):
+        cond = simp(cond) if not isinstance(cond, bool) else z3.BoolVal(cond)
+        if not z3.is_true(cond):
+            self.items.append((cond, "G" if glob else "A"))
+        if name:
+            self.names.append(name)
+
+    def constrain(self, cond):
+        cond = simp(cond) if not isinstance(cond, bool) else z3.BoolVal(cond)
+        if not z3.is_true(cond):
+            self.items.append((cond, "B"))
+
+    def __getattr__(self, name):
+        return getattr(self._c, name)
+
+
+def _same_val(a, b):
+    if a is b:
+        return True
+    if a is None or b is None or not isinstance(a, SV) or not isinstance(b, SV):
+        return False
+    if a.k == "py" or b.k == "py":
+        return a.k == b.k and a.py is b.py
+    if a.k == "none" and b.k == "none":
+        return True
+    try:
+        return z3.eq(simp(box(a)), simp(box(b)))
+    except Exception:
+        return False
+
+
+def _merged_exits(ex, ctx, st, s, L, cj, all_before):
+    """State merge at the loop exit: the alternatives that continue after the loop (no `break` + else-block that
+    falls through, and every `break` exit) become ONE continuation whose carried locals and heap arrays are fresh
+    symbols constrained by the disjunction of the alternatives (each alternative = its exit condition and the
+    equations state' = state_i).  Sound and complete for the set of post-loop states; it replaces the product of
+    path counts of consecutive loops by their sum.  Returns False (nothing changed) when a merge is not possible
+    (concrete Python objects differ, non-falling else-block ...): the caller then forks as before."""
+    j, n = L.j, L.n
+    if any(p.outcome not in ("break",) for p in L.exits):
+        others = [p for p in L.exits if p.outcome != "break"]
+    else:
+        others = []
+    breaks = [p for p in L.exits if p.outcome == "break"]
+    if not breaks:
+        return False
+    nfr = len(st.frames)
+    alts = []  # (items [(cond, kind)], state, names)
+    # ---- the no-break alternative (else-block executed)
+    a0 = _AltCtx(ctx)
+    st0 = st.copy()
+    a0.assume(n >= 0)
+    if not z3.is_true(cj):
+        a0.constrain(all_before(n))
+    L.pre_state(a0, st0, n)
+    else_obls = []
+    if s.orelse:
+        base_pc = list(ctx.pc) + [c for c, _ in a0.items]
+        base_kinds = list(ctx.kinds) + [k for _, k in a0.items]
+        sub = Explorer(parent=ctx, base_kinds=base_kinds, base_pc=base_pc,
+                       branch_timeout_ms=ctx.explorer.branch_timeout_ms, stats=ctx.explorer.stats)
+
+        def run_else(c2):
+            st2 = st0.copy()
+            ex.exec_block(c2, st2, s.orelse)
+            return st2, "fall", None
+        try:
+            res = sub.explore(run_else)
+        except (BreakEx, ContinueEx):
+            return False
+        if any(r.outcome != "fall" for r in res):
+            return False  # else-block returns / raises on some path: keep the forking rule
+        for r in res:
+            items = list(a0.items) + list(zip(r.pc, r.kinds))
+            alts.append((items, r.state, list(a0.names) + list(r.assumptions)))
+            else_obls.extend(r.obligations)
+    else:
+        alts.append((list(a0.items), st0, list(a0.names)))
+    # ---- break alternatives
+    for p in breaks:
+        a = _AltCtx(ctx)
+        k = ctx.fresh("k", Int, tuple(st.idx))
+        pairs = [(j, k)]
+        a.constrain(z3.And(k >= 0, k < n))
+        if not z3.is_true(cj):
+            a.constrain(all_before(k))
+        for c, kd in zip(p.pc, p.kinds):
+            a.items.append((simp(z3.substitute(c, *pairs)), "G" if kd == "G" else ("A" if kd in ("A", "D") else "B")))
+        ps = p.state.copy()
+        subst_state(ps, pairs)
+        alts.append((a.items, ps, list(p.assumptions)))
+    # ---- can the states be merged?
+    for _, sa, _n in alts:
+        if len(sa.frames) != nfr or len(sa.tracked) != len(st.tracked):
+            return False
+        if set(sa.ghost) != set(st.ghost):
+            return False
+        for gk, gv in sa.ghost.items():
+            ov = st.ghost[gk]
+            if gv is ov:
+                continue
+            if isinstance(gv, list) and isinstance(ov, list) and len(gv) == len(ov) and \
+                    all((x is y) or (z3.is_expr(x) and z3.is_expr(y) and z3.eq(x, y)) for x, y in zip(gv, ov)):
+                continue
+            if isinstance(gv, (bool, str, int, type(None))) and gv == ov:
+                continue
+            return False
+        if any(not z3.eq(x, y) for x, y in zip(sa.tracked, st.tracked)):
+            return False
+    eqs = [[] for _ in alts]
+    new_frames_vars = []
+    for fi in range(nfr):
+        names = set()
+        for _, sa, _n in alts:
+            names |= set(sa.frames[fi].vars)
+        merged = {}
+        for v in sorted(names):
+            vals = [sa.frames[fi].vars.get(v) for _, sa, _n in alts]
+            present = [x for x in vals if x is not None]
+            if all(_same_val(present[0], x) for x in present[1:]) and len(present) == len(vals):
+                merged[v] = present[0]
+                continue
+            if any(x.k == "py" for x in present):
+                if all(_same_val(present[0], x) for x in present[1:]):
+                    merged[v] = present[0]  # unbound on some alternatives: treated as this value there
+                    continue
+                return False
+            kinds = {x.k for x in present}
+            if len(present) == len(vals) and len(kinds) == 1 and next(iter(kinds)) in ("int", "bool", "str", "flt"):
+                kd = present[0].k
+                so = {"int": Int, "bool": z3.BoolSort(), "str": z3.StringSort(), "flt": z3.RealSort()}[kd]
+                r = ctx.fresh("mx_" + v, so, tuple(st.idx))
+                for i, x in enumerate(vals):
+                    t = x.t
+                    if isinstance(t, bool):
+                        t = z3.BoolVal(t)
+                    eqs[i].append(r == t)
+                merged[v] = SV(kd, r)
+            else:
+                r = ctx.fresh("mx_" + v, V, tuple(st.idx))
+                for i, x in enumerate(vals):
+                    if x is not None:  # python-semantics: a local unbound on this alternative is arbitrary
+                        eqs[i].append(r == box(x))
+                merged[v] = mk_any(r)
+        new_frames_vars.append(merged)
+    attrs = set()
+    for _, sa, _n in alts:
+        attrs |= set(sa.heap)
+    new_heap = {}
+    for a_ in sorted(attrs):
+        terms = [ex.heap_get(sa, a_) for _, sa, _n in alts]
+        if all(z3.eq(terms[0], t) for t in terms[1:]):
+            new_heap[a_] = terms[0]
+            continue
+        r = ctx.fresh("mxH_" + a_.replace("$", "S"), terms[0].sort(), tuple(st.idx))
+        for i, t in enumerate(terms):
+            eqs[i].append(r == t)
+        new_heap[a_] = r
+    # ---- commit: first decide between the merged continuation and the exits that leave the function
+    d = ctx.choose(1 + len(others))
+    if d > 0:
+        _take_exit(ctx, st, L, others[d - 1], all_before)
+        return True
+    disj = []
+    for (items, sa, names_), e in zip(alts, eqs):
+        for c, kd in items:
+            if kd == "G":
+                ctx.assume(c, glob=True)
+        conj = [c for c, kd in items if kd != "G"] + e
+        disj.append(z3.And(*conj) if conj else z3.BoolVal(True))
+        ctx.assumptions_used.extend(names_)
+    ctx.constrain(z3.Or(*disj) if len(disj) > 1 else disj[0])
+    from .state import Obligation
+    for ob in else_obls:
+        ctx.obligations.append(ob)
+    ctx.check_feasible()
+    for fi in range(nfr):
+        st.frames[fi].vars.clear()
+        st.frames[fi].vars.update(new_frames_vars[fi])
+    st.heap = new_heap
+    return True
 
 
 # ------------------------------------------------------------------------------------------------ while
